@@ -31,7 +31,7 @@ out = ['''
 
 ### 9.1 Independent changes (sub-agents)
 
-Sub-agents, one per claimed property and round (eight rounds), each received only the text
+Sub-agents, one per claimed property and round (ten rounds), each received only the text
 of one property (statement, quantifier, anchors) and a private scratch git
 worktree of /repo - nothing from /verif - and wrote two changes each that
 break the property while the library still imports and the existing suite
@@ -140,6 +140,44 @@ unchanged tree was re-checked on several seeds (tools/precommit.sh).
   prefix builds the sequence). The sub-agents reported that in-scope ideas
   were getting hard to find; several round-7/8 changes are independent
   rediscoveries of earlier mechanisms.
+* **Round 9** (12; a later session, sub-agents again given the property
+  text only and no list of earlier ideas): 11 caught at once, several of
+  them independent rediscoveries (memoised TLS pre-checks, lock on the
+  replaceable rule store, per-old-name override memo). Missed:
+  `C16-nested-blanking-in-place` - opaque-object blanking made recursive,
+  walking the caller's lists in place; it needs an `object()` BELOW the top
+  level of the target. Targets now sometimes carry one (inside a list, dict,
+  tuple, list-of-dict, dict-of-list); for those calls the decision is left
+  unconstrained (the unchanged library raises while encoding, a library that
+  blanks them too would be just as right) and only "the caller's target is
+  left unmodified" is judged, by a structural fingerprint that compares
+  bare objects by identity - that fingerprint is now taken for every call.
+  `C12-class-level-merge-memo` was reported, but its replay file did not
+  reproduce in a fresh interpreter: the violating run depended on what the
+  PREVIOUS simulated run had left in a class attribute. Replay files can
+  now carry a `prelude` (the fewest preceding cases of the same sub-run
+  that make the violation reproduce; `prelude_indices`), executed first.
+* **Round 10** (12; sub-agents given the property text plus the list of
+  ideas already used). Missed on the first run:
+  `C09-backup-suffix-files-skipped` (policy.d names ending in `~`, `.bak`,
+  `.orig`, `.rpmsave` ... skipped like dot-files; the directory file-name
+  pool now holds such names, which sort right after their base names).
+  `C11-flag-snapshotted-at-construction` was reported on the first run only
+  because, after reading its description, worlds had just learned to
+  apply `enforce_new_defaults` / `enforce_scope` AFTER constructing the
+  enforcer (knob `options_after_ctor`, 20 %% of the worlds; the library reads
+  options live, so the order must not matter - this is configuration order,
+  not a runtime toggle). Three changes are reported by another check than
+  the one their author aimed at, and that is the right check:
+  `C09-forced-read-served-from-cache` needs a same-mtime edit plus a forced
+  load on a long-lived enforcer (C12 reports it; C09 judges fresh enforcers
+  and C10 only edits that advance mtimes); `C20-no-main-reset-via-set-rules`
+  and `C20-rulecheck-resolution-memo` leave the lock intact and produce state
+  that stays wrong AFTER the reload (C10 reports both; the C20 check stays
+  quiet on them because every decision it observes equals a complete old or
+  new policy as computed on that same tree). Process-wide state
+  (`C10-process-wide-dir-record`, `C12-process-wide-file-cache`) is reported
+  by C10/C12 through enforcers of the same run and of earlier runs.
 * `C11-addcheck-flag-toggle` (round 2) needs an option toggled on a live conf
   between two loads of one enforcer, outside C11's quantifier; the C11 check
   does not generate toggles. The same change makes the merged OR-chain grow on
@@ -158,7 +196,11 @@ reported, every replay reproduces in a fresh interpreter, and the six
 unpatched scratch copies are clean. `c20-load-outside-lock` (lock removed
 from `load_rules` only) is observable only when a thread reloads through a
 direct `load_rules()` call; it is reported since the reloading thread does
-that too.
+that too. Two of them (`c20-event-gate-check-then-act`, a hand-rolled
+re-entrant gate on a `threading.Event` with a check-then-act window, and
+`c20-semaphore-two-permits`) were added together with the scheduler's
+cooperative `Semaphore`/`BoundedSemaphore`/`Event` (§8.1) and are reported
+(`logs/selftest_event_semaphore.txt`).
 
 | property | mutants |
 |---|---|''' % len(mutants.MUTANTS))
